@@ -65,6 +65,17 @@ IdentVecs ==
   \o Cross2(IdFns, << "nilpub", "nilspk" >>, LAMBDA fn, which :
       One(B(fn, IdModel(7, 4, 0, 0, 0, 6) @@ (IF which = "nilpub" THEN [nilpub |-> TRUE] ELSE [nilspk |-> TRUE]), which)))
 
+\* identities serialised one after the other, results kept, several rounds (Chain op, kind "build"): what a caller-assembled identity
+\* with absent / short padding serialises (and therefore hashes) to must not depend on which identities were serialised before it
+BItem(fn, m) == [fn |-> fn, m |-> m]
+IdentChainVecs ==
+  << One([op |-> "Chain", fn |-> "identity.Bytes", kind |-> "build", cls |-> "identities",
+          items |-> << BItem("NewDestination", IdModel(7, 4, 0, 0, -400, 3) @@ [literal |-> TRUE]), BItem("NewDestination", IdModel(7, 4, 0, 0, 0, 9)),
+                       BItem("NewDestination", IdModel(7, 4, 0, 0, -304, 4) @@ [literal |-> TRUE]), BItem("NewKeysAndCert", IdModel(7, 0, 0, 0, 0, 11)),
+                       BItem("NewRouterIdentityFromKeysAndCert", IdModel(7, 0, 0, 0, -400, 5) @@ [literal |-> TRUE]), BItem("NewRouterIdentity", IdModel(11, 4, 0, 0, 0, 13)),
+                       BItem("NewDestination", IdModel(7, 4, 0, 0, -1, 6) @@ [literal |-> TRUE]), BItem("NewKeysAndCert", IdModel(0, 0, 0, 0, 0, 15)),
+                       BItem("NewDestination", IdModel(0, 0, 0, 0, 0, 7)), BItem("NewKeysAndCert", IdModel(1, 0, 0, 0, 0, 17)) >>]) >>
+
 \* the remaining identity constructors: compressible padding generated by the library (no padding in the model), and the
 \* private-key carrier (readable key-type pairs only; nil private keys are the documented defect)
 IdModelNoPad(st, ct, dp, ds, salt) == [st |-> st, ct |-> ct, pub |-> SafeKey(Max(PubLenOf(ct) + dp, 0), salt), spk |-> SafeKey(Max(SpkLenOf(st) + ds, 0), salt + 1)]
@@ -207,7 +218,7 @@ MappingVecs ==
 \* more; the event carries the second result (results are fresh: what a caller does to one result never shows in a later one)
 AgainOps(ops) == SeqMap(LAMBDA o : IF o.op = "Build" THEN o @@ [again |-> TRUE] ELSE o, ops)
 Again(vs) == vs \o SeqMap(LAMBDA v : [ops |-> AgainOps(v.ops)], SelectSeq(vs, LAMBDA v : \E i \in 1..Len(v.ops) : v.ops[i].op = "Build"))
-Vecs0 == CASE Fam = "cert" -> CertVecs [] Fam = "keycert" -> KeyCertVecs [] Fam = "ident" -> IdentVecs \o IdentVecs2 [] Fam = "raddr" -> RAddrVecs \o RAddrHostVecs \o RAddrUVecs
+Vecs0 == CASE Fam = "cert" -> CertVecs [] Fam = "keycert" -> KeyCertVecs [] Fam = "ident" -> IdentVecs \o IdentVecs2 \o IdentChainVecs [] Fam = "raddr" -> RAddrVecs \o RAddrHostVecs \o RAddrUVecs
           [] Fam = "lease" -> LeaseVecs [] Fam = "offsig" -> OffVecs [] Fam = "ls2" -> LS2Vecs [] Fam = "mapping" -> MappingVecs
           [] OTHER -> CertVecs \o KeyCertVecs \o IdentVecs \o IdentVecs2 \o RAddrVecs \o LeaseVecs \o OffVecs \o LS2Vecs \o MappingVecs
 Vecs == Again(Vecs0)
